@@ -34,9 +34,9 @@ def main():
             "yes" if m.get("baseline_passes_with_change") else "NO",
             "fails" if m.get("demo_fails_with_change") else "DOES NOT FAIL",
             "passes" if m.get("demo_passes_without_change") else "DOES NOT PASS",
-            fmt(m.get("first_result")), fmt(m.get("checks_fired")), m.get("strengthened", "—")))
+            fmt(m.get("first_result")), fmt(m.get("result_now", m.get("checks_fired"))), m.get("strengthened", "—")))
     out += ["", "A change is kept only when all three confirmations hold. \"first result\" is what the machinery reported",
-            "when the change first arrived; \"result now\" is the latest `bin/seedcheck` run. A seed reported only by a",
+            "when the change first arrived; \"result now\" is the latest `bin/seedrun` (or `bin/seedcheck`) evaluation. A seed reported only by a",
             "*different* property's check than the one it targets is listed as such, not counted as caught by its own.", ""]
     open(os.path.join(VERIF, "seeded", "README.md"), "w").write("\n".join(out))
 
